@@ -1072,6 +1072,25 @@ struct Machine {
           !refused([&] { auto r = b + y; (void)r; }) ||
           !refused([&] { auto r = y * b; (void)r; }))
         viol("C08", "cross-grid/migration-after", desc);
+      // an interval-free object on the cousin grid takes over an interval-free
+      // value on the main grid and is then used as an accumulator
+      {
+        Spline<T, oa> acc(*gridC);
+        if (g.chance(1, 2))
+          acc = Spline<T, oa>(g.chance(1, 2) ? *gridA : *gridB);
+        else {
+          Spline<T, oa> e(*gridA);
+          acc = std::move(e);
+        }
+        if (!(acc.getSupport().getGrid() == *gridA) ||
+            acc.getSupport().getGrid() == *gridC)
+          viol("C10", "moved-to-state/empty-migration",
+               "an interval-free spline assigned from another grid kept its old grid");
+        acc += a;
+        checkResult("C03", "add-assign", acc, da, absOf(a),
+                    desc + " (accumulator migrated while interval-free)");
+        c.count("migration:empty");
+      }
       c.count("migration:checked");
     } VF_CATCH("C03", "grid-migration", desc)
     endStep();
